@@ -1985,7 +1985,17 @@ def inline_test_locals(tree: ast.AST) -> ast.AST:
                     and isinstance(st.value, (ast.Compare, ast.BoolOp, ast.UnaryOp)) and pure(st.value) and st.targets[0].id not in nested:
                 v = st.targets[0].id
                 reads = {x.id for x in ast.walk(st.value) if isinstance(x, ast.Name)}
-                if v not in reads and not any(stores.get(r, 0) for r in reads) and not (reads & touched) and not (reads & nested):
+                # a value that may be mutable must not be handed to a call either (the callee could change what `x in v` / `not v` says); parameters annotated
+                # with an immutable type and names that are only compared by identity are exempt
+                immutable = {a.arg for a in fn.args.args + fn.args.kwonlyargs + fn.args.posonlyargs
+                             if a.annotation is not None and ast.unparse(a.annotation) in ('str', 'int', 'bool', 'float', 'bytes', 'Optional[str]', 'Optional[int]', 'Optional[bool]')}
+                by_identity = {x.id for c_ in ast.walk(st.value) if isinstance(c_, ast.Compare) and all(isinstance(o, (ast.Is, ast.IsNot)) for o in c_.ops)
+                               for x in [c_.left] + c_.comparators if isinstance(x, ast.Name)}
+                other = {x.id for c_ in ast.walk(st.value) if not (isinstance(c_, ast.Compare) and all(isinstance(o, (ast.Is, ast.IsNot)) for o in c_.ops))
+                         for x in ast.iter_child_nodes(c_) if isinstance(x, ast.Name)}
+                handed = {a.id for c_ in ast.walk(fn) if isinstance(c_, ast.Call) for a in list(c_.args) + [k.value for k in c_.keywords] if isinstance(a, ast.Name)}
+                risky = {r for r in reads if r in handed and r not in immutable and (r not in by_identity or r in other)}
+                if v not in reads and not any(stores.get(r, 0) for r in reads) and not (reads & touched) and not (reads & nested) and not risky:
                     sub = _PathSubst(v, st.value)
                     fn.body[i + 1:] = [sub.visit(s_) for s_ in fn.body[i + 1:]]
                     del fn.body[i]
